@@ -14,6 +14,7 @@ extern "C"
 // (the legacy header redefines the *_V1 marker macros to the v0 values; this TU only uses the alphabets below)
 
 #include <memory>
+#include <pthread.h>
 
 #ifndef LINK_FAULTS
 #define LINK_FAULTS 0
@@ -129,7 +130,12 @@ namespace
         gstuff_autorecv_v1 r;
         RxLegacy(int cap) : buf(new uint8_t[cap]), cap(cap)
         {
-            memset(&r, 0, sizeof r);
+            // the legacy API has no constructor: setbuf is all the initialisation a caller-supplied struct ever gets, whatever the
+            // storage held before (zeroes, small integers of an earlier stack frame, 0xA5 / 0xFF patterns)
+            static const uint32_t fills[6] = {0, 3, 0xA5A5A5A5u, 0xFFFFFFFFu, 1, 7};
+            uint32_t w = fills[((unsigned)cap ^ ((unsigned)cap >> 3)) % 6];
+            for (size_t i = 0; i + 4 <= sizeof r; i += 4) memcpy((char *)&r + i, &w, 4);
+            if (w) probe("legacy_receiver_in_dirty_storage");
             gstuff_autorecv_setbuf_v1(&r, buf.get(), cap);
         }
         Status put(uint8_t c) override
@@ -159,8 +165,7 @@ namespace
             std::unique_ptr<uint8_t[]> fresh;
             if (how == 4) cap = newcap;
             if (how >= 3) { fresh.reset(new uint8_t[cap]); buf.swap(fresh); }
-            memset(&r, 0, sizeof r);
-            gstuff_autorecv_setbuf_v1(&r, buf.get(), cap);
+            gstuff_autorecv_setbuf_v1(&r, buf.get(), cap); // (the object keeps whatever the interrupted session left in it)
         }
     };
     Rx *make_rx(int variant, int cap)
@@ -936,7 +941,9 @@ namespace
             }
             else
             {
-                p.cfg = {variant, (int64_t)r.below(ENC_N), 0};
+                // cfg[2] != 0 (1 block in 60): instead of the block, one payload of several megabytes through the encoders that size
+                // their own output, called on a thread with the usual 8 MiB stack; the frame is compared with the reference encoding
+                p.cfg = {variant, (int64_t)r.below(ENC_N), r.chance(1, 60) ? (int64_t)r.range(1, 1000) : 0};
                 p.ops.push_back({(int64_t)r.below(65536 + 256 + 1)});
             }
             return p;
@@ -983,6 +990,44 @@ namespace
                     stat("exhaustive_short_streams");
                 }
                 probe("exhaustive_block");
+            }
+            else if (p.c(2) != 0 && variant != VAR_LEGACY)
+            {
+                size_t n = (size_t)(4u << 20) + (size_t)mod(p.c(2), 1000) * 2099;
+                Bytes pl(n);
+                uint64_t x = (uint64_t)p.c(2) * 0x9E3779B97F4A7C15ull + 1;
+                for (size_t i = 0; i < n; i += 8)
+                {
+                    uint64_t w = splitmix64(x);
+                    for (size_t k = 0; k < 8 && i + k < n; k++) pl[i + k] = (uint8_t)(w >> (8 * k));
+                }
+                struct Job { const Bytes *pl; gstuff_context ctx; int enc; Bytes out; } job{&pl, variant == VAR_CFG_V0 ? gstuff_context_v0() : gstuff_context(), (int)mod(p.c(1), 2), {}};
+                pthread_attr_t at;
+                pthread_attr_init(&at);
+                pthread_attr_setstacksize(&at, 8u << 20);
+                pthread_t th;
+                auto body = +[](void *q) -> void * {
+                    Job *j = (Job *)q;
+                    if (j->enc == 0) j->out = gstuffing(igris::buffer((const char *)j->pl->data(), j->pl->size()), j->ctx);
+                    else
+                    {
+                        struct iovec v[2];
+                        v[0].iov_base = (void *)j->pl->data();
+                        v[0].iov_len = j->pl->size() / 3;
+                        v[1].iov_base = (void *)(j->pl->data() + v[0].iov_len);
+                        v[1].iov_len = j->pl->size() - v[0].iov_len;
+                        j->out = gstuffing_v(v, 2, j->ctx);
+                    }
+                    return nullptr;
+                };
+                if (pthread_create(&th, &at, body, &job) != 0) violate("C04/harness", "pthread_create failed");
+                pthread_join(th, nullptr);
+                pthread_attr_destroy(&at);
+                Bytes want = ref_encode(a, pl);
+                if (job.out != want)
+                    violate("C04/frame-bytes", "%s: a payload of %zu bytes is framed as %zu bytes that differ from the reference encoding (%zu bytes)", VAR_NAME[variant], n, job.out.size(), want.size());
+                ls.bytes += want.size();
+                probe("payload_of_megabytes");
             }
             else
             {
